@@ -217,6 +217,7 @@ Module Bin.
     of_int : Z -> Z;            (* `x as f64` for an integer (round to nearest even) *)
     to_f32 : Z -> Z;            (* `n as f32` as a 32-bit pattern *)
     of_f32 : Z -> Z;            (* `x as f64` for an f32 bit pattern *)
+    negzero : Z -> bool;        (* `n == 0.0 && n.is_sign_negative()` *)
   }.
 
   Inductive leaf :=
@@ -254,12 +255,15 @@ Module Bin.
 
     (** encode.rs:604-648.  min/max start at 0 and ignore NaN; on the integer branches every
         element is an integer so they are the integer min/max with 0 *)
-    Definition ints_of (d : list Z) : option (list Z) :=
-      fold_right (fun n acc => match to_int NO n, acc with Some z, Some l => Some (z :: l) | _, _ => None end)
+    (** all_int, with the values.  Since b303665 ([excl] = true, the current code) negative zero does
+        not count as an integer: `all_int &= n.fract() == 0.0 && !(n == 0.0 && n.is_sign_negative())` *)
+    Definition ints_of (excl : bool) (d : list Z) : option (list Z) :=
+      fold_right (fun n acc => if excl && negzero NO n then None else
+                               match to_int NO n, acc with Some z, Some l => Some (z :: l) | _, _ => None end)
                  (Some []) d.
     Definition all_f32 (d : list Z) : bool := forallb (fun n => of_f32 NO (to_f32 NO n) =? n) d.
-    Definition choose (d : list Z) : bty :=
-      match ints_of d with
+    Definition choose_gen (excl : bool) (d : list Z) : bty :=
+      match ints_of excl d with
       | Some zs =>
           let mx := fold_right Z.max 0 zs in
           let mn := fold_right Z.min 0 zs in
@@ -274,6 +278,8 @@ Module Bin.
             else if (- 2 ^ 24 <=? mn) && (mx <=? 2 ^ 24) then F32 else F64
       | None => if all_f32 d then F32 else F64
       end.
+    Definition choose : list Z -> bty := choose_gen true.        (* the current code *)
+    Definition choose_pre : list Z -> bty := choose_gen false.   (* before b303665 *)
     (** `n as uN` / `n as iN` saturate; two's complement little endian *)
     Definition sat (lo hi z : Z) : Z := Z.max lo (Z.min hi z).
     Definition zint (n : Z) : Z := match to_int NO n with Some z => z | None => 0 end.
@@ -547,7 +553,8 @@ Module Bin.
        let k := Z.log2 m in sb + (k - 149 + 1023) * P52 + (m - 2 ^ k) * 2 ^ (52 - k))
     else sb + (e - 127 + 1023) * P52 + m * 2 ^ 29.
   Definition cops : numops :=
-    {| to_int := c_to_int; nonneg := c_nonneg; of_int := c_of_int; to_f32 := c_to_f32; of_f32 := c_of_f32 |}.
+    {| to_int := c_to_int; nonneg := c_nonneg; of_int := c_of_int; to_f32 := c_to_f32; of_f32 := c_of_f32;
+       negzero := fun b => b =? 2 ^ 63 |}.
 End Bin.
 
 (** * cases of the correspondence check (rendered by lib/c18.py from the harness output) *)
